@@ -183,20 +183,37 @@ def _own_exprs(s: ast.AST) -> list[ast.AST]:
     return [s]
 
 
-class GraphBuild:
-    """The constructor of a graph class, seen through its inlined view: where is the graph modified, where is it frozen."""
-
-    def __init__(self, repo: Repo, cls, init: FuncInfo) -> None:
-        self.repo = repo
-        self.cls = cls
-        self.init = init
-        self.T = types_of(repo)
-        self.view = inline_view(repo, init, self.T)
-        self.cfg = cfg_of(self.view)
+def _graph_closures(repo: Repo) -> dict:
+    key = "_c15_graph_closures"
+    if key not in repo.__dict__:
         muts = graph_mutations(repo)
-        self.kind_funcs = {k: _closure(repo, {f for f, _n, kk, _r in muts if kk == k}) for k in ("node", "edge", "other")}
+        kind_funcs = {k: _closure(repo, {f for f, _n, kk, _r in muts if kk == k}) for k in ("node", "edge", "other")}
         freezers = {f for f in repo.all_functions() for c in calls_in(f.node) if _lib_name(repo, f, c) == "networkx.freeze"}
-        self.freeze_funcs = _closure(repo, freezers)
+        repo.__dict__[key] = {"muts": muts, "kind_funcs": kind_funcs, "freeze_funcs": _closure(repo, freezers)}
+    return repo.__dict__[key]
+
+
+class GraphBuild:
+    """A function that takes part in building a graph (the constructor of a graph class, a builder), seen through its inlined
+    view: where is a graph modified, where is it frozen."""
+
+    def __init__(self, repo: Repo, fn: FuncInfo) -> None:
+        self.repo = repo
+        self.fn = fn
+        self.T = types_of(repo)
+        self.view = inline_view(repo, fn, self.T)
+        self.cfg = cfg_of(self.view)
+        cl = _graph_closures(repo)
+        self.kind_funcs = cl["kind_funcs"]
+        self.freeze_funcs = cl["freeze_funcs"]
+        self.ev = {s: self.events(s) for s in self.cfg.stmts()}
+
+    def callees(self, c: ast.Call) -> list[FuncInfo]:
+        try:
+            cs, _how = self.T.callees(self.view, c, byname_fallback=False)
+        except Exception:  # noqa: BLE001
+            cs = []
+        return [g for g in cs if not g.is_abstract]
 
     def events(self, s: ast.AST) -> dict[str, list[ast.Call]]:
         """kind -> calls of the statement's own expressions that (may) modify / freeze a graph."""
@@ -330,54 +347,92 @@ def _unit_over(v: FuncInfo, call: ast.Call, d: set[str], repo: Repo, T, by_class
     return None
 
 
+def freeze_verdict(repo: Repo, fn: FuncInfo, depth: int = 0, stack: tuple = ()) -> tuple[str, str, ast.AST | None]:
+    """('ok' | 'violated' | 'undecided', detail, node): on every path to the normal exit of `fn` the graph it builds has been
+    frozen, and nothing modifies a graph after the freeze.  A freeze may be `nx.freeze(graph)` itself or a call of a function for
+    which the same holds (a builder that builds, freezes and returns)."""
+    from core.cfg import EXIT
+
+    T = types_of(repo)
+    gb = GraphBuild(repo, fn)
+    v, cfg, ev = gb.view, gb.cfg, gb.ev
+    freezes: list[ast.AST] = []
+    self_contained: set[int] = set()  # statements whose own modifications precede their own freeze (verified callee)
+    for s, e in ev.items():
+        if "freeze" not in e:
+            continue
+        good = True
+        for c in e["freeze"]:
+            if _lib_name(repo, v, c) == "networkx.freeze":
+                if not (c.args and isinstance(c.args[0], (ast.Name, ast.Attribute)) and _is_digraph(T, v, c.args[0])):
+                    return "violated", "nx.freeze is not applied to the graph itself (a copy or another object is frozen)", s
+                continue
+            if depth >= 3:
+                return "undecided", f"`{norm(c, 80)}` freezes the graph somewhere below; the nesting is too deep to follow", s
+            for g in gb.callees(c):
+                if g not in gb.freeze_funcs:
+                    continue
+                if g.fq in stack:
+                    return "undecided", f"`{norm(c, 80)}` is recursive", s
+                verdict, detail, _n = freeze_verdict(repo, g, depth + 1, stack + (fn.fq,))
+                if verdict == "undecided":
+                    return verdict, detail, s
+                if verdict == "violated":
+                    good = False  # the callee does not guarantee a frozen graph: this statement is no freeze
+        if good:
+            freezes.append(s)
+            if not all(_lib_name(repo, v, c) == "networkx.freeze" for c in e["freeze"]):
+                self_contained.add(id(s))
+    mutating = [s for s, e in ev.items() if any(k in e for k in ("node", "edge", "other"))]
+    if not freezes:
+        return "violated", f"{fn.qualname} never freezes the graph it builds: later calls can modify it", fn.node
+    final = [s for s in freezes if cfg.dominates(s, EXIT)]
+    if not final:
+        return "violated", "the graph is not frozen on every path through " + fn.qualname, freezes[0]
+    for s in final:
+        if s in mutating and id(s) not in self_contained:
+            return "undecided", f"`{header(s)}` both modifies and freezes the graph in one expression: the order of the two cannot be seen", s
+    late = [m for m in mutating for s in final if m is not s and cfg.paths_avoiding(s, m, set())]
+    if late:
+        return "violated", f"`{header(late[0])}` modifies the graph after it has been frozen (freeze must follow the construction)", late[0]
+    return "ok", "nx.freeze(graph) is passed on every path to the end of the construction and nothing modifies the graph afterwards", final[0]
+
+
 def run_r1(repo: Repo, res: Result) -> None:
     T = types_of(repo)
     R = _roots(repo)
-    # graph classes: an instance attribute holds a networkx graph
     if R._store_index is None:
         R._build_store_index()
+    roots = evaluation_roots(repo)
+    reach_eval = reachable_funcs(repo, roots, byname=True)
+    # long-lived graph holders: an instance attribute holds a networkx graph, and methods of the class take part in evaluations
+    # (a builder object that lives only inside a constructor is not one of them)
     graph_classes = []
     for (cfq, attr) in sorted(R._store_index):  # type: ignore[arg-type]
         ci = repo.classes.get(cfq)
         if ci is not None and ci not in graph_classes and any(m == DIGRAPH for m in members(T.attr_type(ci, attr))):
             graph_classes.append(ci)
-    if not graph_classes:
-        res.undecide("C15.R1", "src::graph class", "no class keeps a networkx.DiGraph in an instance attribute: the frozen-graph argument has no anchor")
+    holders = [g for g in graph_classes if any(m in reach_eval for c in R.hierarchy(g) for m in c.methods.values() if m.name not in ("__init__", "__post_init__"))]
+    if not holders:
+        res.undecide("C15.R1", "src::graph class", "no class that takes part in evaluations keeps a networkx.DiGraph in an instance attribute: the frozen-graph argument has no anchor")
         return
-    muts = graph_mutations(repo)
-    for g in graph_classes:
+    cl = _graph_closures(repo)
+    muts = cl["muts"]
+    inits: list[FuncInfo] = []
+    for g in holders:
         init = repo.lookup_method(g, "__init__")
         if init is None:
             res.undecide("C15.R1", f"{g.module.relpath}::{g.name}::__init__", "graph class without a constructor of its own")
             continue
-        gb = GraphBuild(repo, g, init)
-        v, cfg = gb.view, gb.cfg
-        from core.cfg import EXIT
-
-        ev = {s: gb.events(s) for s in cfg.stmts()}
-        freezes = [s for s, e in ev.items() if "freeze" in e]
-        mutating = [s for s, e in ev.items() if any(k in e for k in ("node", "edge", "other"))]
+        inits.append(init)
         key = f"{init.relpath}::{init.qualname}::freeze"
-        if not freezes:
-            res.add("C15.R1", key, False, f"the constructor of {g.name} never freezes the graph it builds: later calls can modify it", where(init, init.node), kind="dominance")
+        verdict, detail, node = freeze_verdict(repo, init)
+        if verdict == "undecided":
+            res.undecide("C15.R1", key, detail, where(init, node or init.node))
         else:
-            final = [s for s in freezes if cfg.dominates(s, EXIT)]
-            both = [s for s in freezes if s in mutating]
-            late = [m for m in mutating for s in final if m is not s and cfg.paths_avoiding(s, m, set())]
-            # the frozen object must be the graph itself (a name or attribute holding it), not a copy made for the occasion
-            typed = all(isinstance(c.args[0], (ast.Name, ast.Attribute)) and _is_digraph(T, v, c.args[0]) for s in freezes for c in ev[s]["freeze"] if _lib_name(repo, v, c) == "networkx.freeze" and c.args)
-            if both and not late and final:
-                res.undecide("C15.R1", key, f"`{header(both[0])}` both modifies and freezes the graph and could not be expanded: the order of the two cannot be seen", where(init, both[0]))
-            else:
-                ok = bool(final) and not late and typed
-                detail = "nx.freeze(graph) is passed on every path to the end of the constructor and nothing modifies the graph afterwards"
-                if not final:
-                    detail = "the graph is not frozen on every path through the constructor"
-                elif late:
-                    detail = f"`{header(late[0])}` modifies the graph after it has been frozen (freeze must follow the construction)"
-                elif not typed:
-                    detail = "nx.freeze is not applied to the graph attribute itself (a copy or another object is frozen)"
-                res.add("C15.R1", key, ok, detail, where(init, init.node), kind="dominance")
+            res.add("C15.R1", key, verdict == "ok", detail, where(init, init.node), kind="dominance")
+        gb = GraphBuild(repo, init)
+        v, cfg, ev = gb.view, gb.cfg, gb.ev
         # nodes before import edges
         params = [p for p in init.param_names if p != Roots.self_name(init)]
         okey = f"{init.relpath}::{init.qualname}::nodes before edges"
@@ -430,28 +485,29 @@ def run_r1(repo: Repo, res: Result) -> None:
                     where(init, edge_units[0]),
                     kind="dominance",
                 )
-        # who may mutate a graph after construction
-        public = [m for c in R.hierarchy(g) for m in c.methods.values() if m is not init and (not m.name.startswith("_") or (m.name.startswith("__") and m.name != "__init__"))]
-        outside = reachable_funcs(repo, [*public, *evaluation_roots(repo)], byname=True, stop={init.fq})
-        outside.pop(init, None)
-        from_init = reachable_funcs(repo, [init], byname=False)
-        n_sites = 0
-        for f, c, _k, recv in muts:
-            rv = R.value(f, recv)
-            if rv.obj and rv.only_fresh:
-                continue  # a private graph created in this very function
-            n_sites += 1
-            ok = f in from_init and f not in outside
-            path = outside.get(f)
-            res.add(
-                "C15.R1",
-                repo.key(f, stmt_of(c)),
-                ok,
-                "graph mutator reachable only from the constructor" if ok else f"`{norm(c)}` mutates the graph and is reachable after construction via {' -> '.join(p.split('::')[1] for p in path) if path else 'a function outside the constructor chain'}",
-                where(f, c),
-                kind="effect",
-            )
-        res.floor("C15.R1", 2, n_sites)
+    # who may modify a graph after construction: nothing that an evaluation or a public method of a graph holder can reach
+    public = [m for g in holders for c in R.hierarchy(g) for m in c.methods.values() if m not in inits and (not m.name.startswith("_") or (m.name.startswith("__") and m.name not in ("__init__", "__post_init__")))]
+    outside = reachable_funcs(repo, [*public, *roots], byname=True, stop={i.fq for i in inits})
+    for i in inits:
+        outside.pop(i, None)
+    n_sites = 0
+    for f, c, _k, recv in muts:
+        rv = R.value(f, recv)
+        if rv.obj and rv.only_fresh:
+            continue  # a private graph created in this very function
+        n_sites += 1
+        ok = f not in outside
+        path = outside.get(f)
+        res.add(
+            "C15.R1",
+            repo.key(f, stmt_of(c)),
+            ok,
+            "graph mutator not reachable from any evaluation entry point or public method of a graph holder (construction only)" if ok else f"`{norm(c)}` mutates the graph and is reachable after construction via {' -> '.join(p.split('::')[1] for p in path) if path else 'a function outside the constructor chain'}",
+            where(f, c),
+            kind="effect",
+        )
+    if n_sites == 0:
+        res.undecide("C15.R1", "src::graph mutators", "no statement that adds nodes or edges to a networkx graph was recognised")
 
 
 # --------------------------------------------------------------------------- R2
@@ -563,8 +619,22 @@ class _RewriteView:
         guard = guard_formula(self.v, node)
         texts = {f"{i}.{k}" for i in self.ident}
         names = sorted(texts) + [n for n, val in self.single.items() if norm(val) in texts]
+        # `x is True` / `x is False` / truthiness of one attribute are related; a field declared `bool` is one of the two
+        from core.guards import f_and, f_not, f_or
+
+        facts = []
         for a in names:
-            if implies(guard, atom(f"bool({a})")) or implies(guard, atom(f"{a} is True")):
+            is_t, is_f, truthy = atom(f"{a} is True"), atom(f"{a} is False"), atom(f"bool({a})")
+            facts += [f_or([f_not(is_t), truthy]), f_or([f_not(is_f), f_not(truthy)])]
+            try:
+                declared_bool = self.T.expr(self.v, ast.parse(a, mode="eval").body) == ("b", "bool", ())
+            except Exception:  # noqa: BLE001
+                declared_bool = False
+            if declared_bool:
+                facts.append(f_or([is_t, is_f]))
+        constraints = f_and(facts)
+        for a in names:
+            if implies(guard, atom(f"bool({a})"), constraints):
                 return True
         # the condition is made of nothing but tests of the old value's own attributes (or locals holding them): propositional
         # reasoning is then complete, and "not implied" means there is a path with the flag clear
@@ -603,9 +673,14 @@ class _RewriteView:
                         kw[kk.arg] = kk.value
                     else:
                         complete = False
-            elif isinstance(d, ast.Dict) and all(isinstance(x, ast.Constant) and isinstance(x.value, str) for x in d.keys):
+            elif isinstance(d, ast.Dict):
                 for x, val in zip(d.keys, d.values):
-                    kw[x.value] = val  # type: ignore[union-attr]
+                    if isinstance(x, ast.Constant) and isinstance(x.value, str):
+                        kw[x.value] = val
+                    else:
+                        # `**other` inside the display (or a computed key): it may override what was collected so far
+                        kw.clear()
+                        complete = False
             else:
                 complete = False
         return kw, complete
@@ -620,7 +695,7 @@ class _RewriteView:
         rebuilt = False
         if _is_replace(self.repo, self.v, leaf) and leaf.args and self.is_old(leaf.args[0]):
             rebuilt = True
-        elif self.T.ctor_class(self.v, leaf) is not None and any(self.mentions_old(a) for a in [*leaf.args, *kw.values()]):
+        elif self.T.ctor_class(self.v, leaf) is not None and any(self.mentions_old(a) for a in [*leaf.args, *[k.value for k in leaf.keywords]]):
             rebuilt = True
         if rebuilt:
             cleared, unsure = set(), False
